@@ -163,9 +163,10 @@ class Setup:
 @contextlib.contextmanager
 def neighbor_budget(limit):
     """
-    Deterministic step budget: every traversal calls helpers.neighbors() at
-    most once per visited vertex, so more than `limit` calls means the
-    traversal is not terminating (or re-expanding vertices).
+    Deterministic step budget: a terminating traversal of n vertices has no
+    reason to call helpers.neighbors() more than a few times per vertex; the
+    callers pass a generous quadratic limit, so exceeding it means the
+    traversal is not terminating (or re-expanding vertices without end).
     """
     from edgegraph.traversal import breadthfirst, depthfirst, helpers
 
